@@ -76,44 +76,51 @@ def binding_path(scope, name):
     return "unbound"
 
 
-def _visible_ignoring_hiding(scope):
-    """use_visible() of the reference model, except that 'use m, loc => rem' also leaves rem visible under its own name
-    (what a per-module (only-list, rename-map) record without a notion of hidden names yields)."""
-    out = {}
-    for u in scope.uses:
-        exp = _exported_ignoring_hiding(u.module.inner)
-        if u.only is None:
-            for n, e in exp.items():
-                out.setdefault(n, e)
-            for loc, rn, rem in (u.renames or []):
-                out.setdefault(loc.lower(), rem)
-        else:
-            for loc, rem in u.only:
-                out[loc.lower()] = rem
-    return out
+def _reachable_through_hidden(scope, name, seen=None):
+    """Entities a lookup of `name` from `scope` can reach along USE paths when the hiding effect of rename lists
+    ('use m, loc => NAME' makes m's NAME inaccessible as NAME) is ignored, restricted to paths that pass such a hidden
+    name: {Ent}.  Precedence between paths is deliberately not modelled (fortls searches the merged USE tree before the
+    declarations of the modules it passes through)."""
+    n = name.lower()
+    out = set()
 
+    def from_module(msc, x, hidden, depth):
+        # x: spelling of the name inside module msc
+        if depth > 12:
+            return
+        e = msc.declared.get(x)
+        if e is not None and not (e.vis == "private" or (e.vis is None and msc.default_private)):
+            if hidden:
+                out.add(e)
+        if not msc.default_private or True:  # re-export (fortls also descends through default-PRIVATE modules: separate finding)
+            from_uses(msc, x, hidden, depth + 1)
 
-def _exported_ignoring_hiding(msc):
-    out = {}
-    if not msc.default_private:
-        out.update(_visible_ignoring_hiding(msc))
-    for n, e in msc.declared.items():
-        if e.vis == "private" or (e.vis is None and msc.default_private):
-            continue
-        out[n] = e
+    def from_uses(sc, x, hidden, depth):
+        for u in sc.uses:
+            if u.only is None:
+                ren = {loc.lower(): rn for loc, rn, _ in (u.renames or [])}
+                if x in ren:
+                    from_module(u.module.inner, ren[x], hidden, depth)
+                # the name itself: legitimately visible unless a rename list hides it
+                from_module(u.module.inner, x, hidden or x in ren.values(), depth)
+            else:
+                exp = u.module.inner.exported()
+                for loc, rem in u.only:
+                    if loc.lower() == x:
+                        spell = next((k for k, v in exp.items() if v is rem), rem.name.lower())
+                        from_module(u.module.inner, spell, hidden, depth)
+
+    s = scope
+    while s is not None:
+        from_uses(s, n, False, 0)
+        s = s.parent
     return out
 
 
 def hidden_by_rename_list(scope, name, ent):
     """True if `ent` is an entity that a rename list without ONLY ('use m, loc => NAME'), in the scope chain of `scope` or
-    in a module reached from it, makes inaccessible under NAME, i.e. a lookup that ignores the hiding finds `ent`."""
-    n = name.lower()
-    s = scope
-    while s is not None:
-        if _visible_ignoring_hiding(s).get(n) is ent and s.use_visible().get(n) is not ent:
-            return True
-        s = s.parent
-    return False
+    in a module reached from it, makes inaccessible under NAME, while a lookup that ignores the hiding reaches it."""
+    return ent in _reachable_through_hidden(scope, name)
 
 
 def homonyms(prog, ent, spelling):
